@@ -247,6 +247,7 @@ class PatchesFromEd(Contract):
                     "lines == source[blk0:it1]",
                     "ed_block_end(source, blk0) == ed_block_end(source, it1)",
                     "ed_block_end(source, it1) == ed_block_end_step(source, it1)",
+                    "law_slice_extend(source, blk0, it1)",
                 ),
                 index="it1", entry={"blk0": "it1"},
                 var_types={"c": kind, "lines": ("list", kind)}),
@@ -311,8 +312,163 @@ def run(ctx):
             w.add_contract(c)
         verify_contracts(ctx, w, cs, {})
     ctx.solve()
+    run_bounded(ctx)
     ctx.level = "other"
+    ctx.explanation = (
+        "PROVED (all scripts, all line lists, str and bytes): patches_from_ed_script yields exactly the triples of the "
+        "recursive spec parser ed_patches and raises ValueError exactly when the script is not well formed (bad "
+        "command, 'a' with a range, unterminated text block, explicit empty string); patch_lines is the fold of Python "
+        "slice assignments over the patches. The command regex is shared between code and spec as uninterpreted "
+        "(matches?, groups) functions; what the pattern accepts is covered by the bounded part. BOUNDED: end-to-end "
+        "application against two independent differs; the link 'slice assignment of triple(cmd) == POSIX ed meaning'.")
+    ctx.assumptions += ["A-SEM", "A-GEN: the generator is consumed by a single consumer that does not mutate `source`",
+                        "recursive spec functions ed_ok/ed_patches/ed_block_end/ed_fold terminate (index increases)",
+                        "regex facts used by the control-flow proof: group 3 of _patch_re is one of a/c/d, groups 1 and 2 "
+                        "are accepted by int() (trusted here, exercised by B-18)",
+                        "command addresses are valid for the file (ed would reject others): domain of the property"]
 
 
 def replay(ctx, data):
+    inp = data.get("inputs") or {}
+    if "script" in inp and "old" in inp:
+        try:
+            got = _apply(inp["script"], inp["old"], inp.get("bytes", False))
+        except ValueError:
+            got = "ValueError"
+        except Exception as e:
+            got = repr(e)
+        if "new" in inp:
+            return got == inp["new"]
+        return got == "ValueError"
     return True
+
+
+# ------------------------------------------------------------------------------------------------
+# B-18 bounded stand-in (never counted as proved): pairs (old, new) with an ed script derived by
+# two independent differs; scripts with one corrupted command; unterminated text blocks.
+
+def _ed_script_difflib(old, new):
+    import difflib
+    sm = difflib.SequenceMatcher(a=old, b=new, autojunk=False)
+    out = []
+    for tag, i1, i2, j1, j2 in reversed(sm.get_opcodes()):
+        if tag == "equal":
+            continue
+        if tag == "delete":
+            out.append("%d%sd\n" % (i1 + 1, "" if i2 - i1 == 1 else ",%d" % i2))
+        elif tag == "insert":
+            out.append("%da\n" % i1)
+            out.extend(new[j1:j2])
+            out.append(".\n")
+        else:
+            out.append("%d%sc\n" % (i1 + 1, "" if i2 - i1 == 1 else ",%d" % i2))
+            out.extend(new[j1:j2])
+            out.append(".\n")
+    return out
+
+
+def _ed_script_diff(old, new, tmpdir):
+    a, b = os.path.join(tmpdir, "a"), os.path.join(tmpdir, "b")
+    open(a, "w").write("".join(old))
+    open(b, "w").write("".join(new))
+    r = subprocess.run(["diff", "-e", a, b], capture_output=True, text=True)
+    if r.returncode not in (0, 1):
+        return None
+    return r.stdout.splitlines(True)
+
+
+def _apply(script, old, as_bytes):
+    from debian import debian_support as ds
+    if as_bytes:
+        script = [s.encode() for s in script]
+        lines = [l.encode() for l in old]
+    else:
+        lines = list(old)
+    ds.patch_lines(lines, ds.patches_from_ed_script(script))
+    return [l.decode() for l in lines] if as_bytes else lines
+
+
+def bounded_ed(ctx):
+    import shutil
+    import tempfile
+    rng = random.Random(ctx.seed)
+    alphabet = ["x\n", "y\n", ". \n", "..\n", "2a\n", " .\n", ".\t\n"]
+    maxlen = 3 if ctx.tier == "quick" else 4
+    have_diff = shutil.which("diff") is not None
+    tmp = tempfile.mkdtemp(prefix="verif-c18-", dir="/dev/shm" if os.path.isdir("/dev/shm") else None)
+    evals, nontrivial, samples = 0, set(), []
+    try:
+        seqs = [list(t) for n in range(0, maxlen + 1) for t in itertools.product(alphabet[:5], repeat=n)]
+        if ctx.tier == "quick":
+            seqs = [s for s in seqs if len(s) <= 2] + rng.sample([s for s in seqs if len(s) > 2], 60)
+        extra = [[rng.choice(alphabet) for _ in range(rng.randint(0, 5))] for _ in range(40 if ctx.tier == "quick" else 300)]
+        seqs += extra
+        pairs = [(o, n) for o in seqs for n in seqs]
+        if len(pairs) > (4000 if ctx.tier == "quick" else 60000):
+            pairs = rng.sample(pairs, 4000 if ctx.tier == "quick" else 60000)
+        for k, (old, new) in enumerate(pairs):
+            scripts = [("difflib", _ed_script_difflib(old, new))]
+            if have_diff and k % (8 if ctx.tier == "quick" else 3) == 0:
+                s = _ed_script_diff(old, new, tmp)
+                if s is not None:
+                    scripts.append(("diff -e", s))
+            for origin, script in scripts:
+                for as_bytes in (False, True):
+                    evals += 1
+                    try:
+                        got = _apply(script, old, as_bytes)
+                        err = None
+                    except Exception as e:
+                        got, err = None, repr(e)
+                    if script:
+                        nontrivial.add((tuple(script), as_bytes))
+                    if got != new:
+                        return evals, nontrivial, samples, dict(
+                            what="applying the ed script does not give the target lines", old=old, new=new,
+                            script=script, script_from=origin, bytes=as_bytes, got=got, error=err)
+            if len(samples) < 3 and old != new and len(old) >= 2:
+                samples.append({"old": old, "new": new, "script": scripts[0][1]})
+            # one corrupted command / unterminated block / explicit empty string: ValueError expected
+            script = scripts[0][1]
+            if script and k % 5 == 0:
+                cmd_idx = [i for i, l in enumerate(script) if re.fullmatch(r"\d+(,\d+)?[acd]\n", l)
+                           and (i == 0 or script[i - 1] == ".\n" or re.fullmatch(r"\d+(,\d+)?d\n", script[i - 1]))]
+                bad = []
+                i = rng.choice(cmd_idx)
+                for repl in ("q\n", "1x\n", "a\n", "1,2a\n", "-1d\n", "1 d\n"):
+                    bad.append(script[:i] + [repl] + script[i + 1:])
+                if script[-1] == ".\n":
+                    bad.append(script[:-1])                 # unterminated last text block
+                    bad.append(script[:-1] + [""])          # explicit end-of-stream marker inside a block
+                for b in bad:
+                    for as_bytes in (False, True):
+                        evals += 1
+                        nontrivial.add((tuple(b), as_bytes, "bad"))
+                        try:
+                            got = _apply(b, old, as_bytes)
+                        except ValueError:
+                            continue
+                        except Exception as e:
+                            return evals, nontrivial, samples, dict(
+                                what="malformed script raised %r instead of ValueError" % (e,), old=old, script=b,
+                                bytes=as_bytes)
+                        return evals, nontrivial, samples, dict(
+                            what="malformed script was applied instead of raising ValueError", old=old, script=b,
+                            bytes=as_bytes, got=got)
+    finally:
+        shutil.rmtree(tmp, ignore_errors=True)
+    return evals, nontrivial, samples, None
+
+
+def run_bounded(ctx):
+    ev, nt, samples, fail = bounded_ed(ctx)
+    ctx.bounded("B-18 ed scripts from difflib and `diff -e` applied to (old, new) pairs; corrupted commands",
+                ev, len(nt), "line lists over {x, y, '. ', '..', '2a', ' .', '.<tab>'} (lines that look like terminators or "
+                "commands included); scripts derived independently by difflib opcodes and by diff -e; str and bytes; "
+                "each script also with one command corrupted / last block unterminated / explicit '' (ValueError "
+                "expected); non-trivial = distinct non-empty (script, str|bytes)",
+                "lists of <= %d lines exhaustive over 5 symbols (sampled in quick) + seeded longer ones" % (3 if ctx.tier == "quick" else 4),
+                samples)
+    if fail:
+        ctx.violation("B-18 " + fail["what"], "B-18 bounded: ed script application", fail["what"], inputs=fail,
+                      confirmed=True)
